@@ -430,3 +430,381 @@ Proof.
     intros H. eapply effok_of_seff with (app := app) (asset := coll_asset) (dl := amt) (dn := debt_asset) (db := amt); [|reflexivity|reflexivity].
     exact (seff_penalty _ _ _ _ _ _ H).
 Qed.
+
+(* ------------------------------------------------------------------------------------ *)
+(* from the table to the invariants                                                      *)
+
+Lemma backed_upd' c c' app asset dl :
+  NfNonneg c -> Backed c ->
+  (forall a d, nf_val c' a d = nf_val c a d + (if keq (a, d) (app, asset) then dl else 0)) ->
+  0 <= nf_val c app asset + dl ->
+  (forall d, cbal c d + (if d =? asset then dl else 0) <= cbal c' d) ->
+  Backed c'.
+Proof.
+  intros Hn Hb Hval Hv Hbal d l Hnd.
+  specialize (Hbal d). unfold nf_total.
+  destruct (Z.eqb_spec d asset) as [Heq|Hne].
+  - subst d. rewrite (sum_over_bump l (fun a => nf_val c a asset) (fun a => nf_val c' a asset) app dl Hnd).
+    2:{ intros a. rewrite Hval, keq_pair, Z.eqb_refl, andb_true_r. reflexivity. }
+    destruct (existsb (Z.eqb app) l) eqn:E.
+    + pose proof (Hb asset l Hnd) as H1. unfold nf_total in H1. lia.
+    + pose proof (Hb asset l Hnd) as H1. unfold nf_total in H1.
+      destruct (Z_le_gt_dec 0 dl); [lia|].
+      assert (Hnd' : NoDup (app :: l)) by (constructor; [apply existsb_false_notin; exact E|exact Hnd]).
+      pose proof (Hb asset (app :: l) Hnd') as H2. unfold nf_total in H2. cbn [sum_over] in H2. lia.
+  - rewrite (sum_over_ext l (fun a => nf_val c' a d) (fun a => nf_val c a d)).
+    + pose proof (Hb d l Hnd) as H1. unfold nf_total in H1. lia.
+    + intros a _. rewrite Hval, keq_pair. destruct (Z.eqb_spec d asset); [contradiction|]. rewrite andb_false_r. lia.
+Qed.
+
+Lemma ceff_backed c c' app asset dl db :
+  NfNonneg c -> Backed c -> CEff c c' (app, asset) dl asset db -> dl <= db -> Backed c'.
+Proof.
+  intros Hn Hb (A1 & A2 & A3) Hle. apply (backed_upd' c c' app asset dl Hn Hb A1).
+  - pose proof (nf_val_nonneg c' app asset (A3 Hn)) as H. rewrite A1, keq_refl in H. exact H.
+  - intros d. rewrite A2. destruct (d =? asset); lia.
+Qed.
+
+(* ---- the savings-rate change ---- *)
+Lemma iter_one_nonneg s app asset lid rw :
+  NfNonneg (cs s) ->
+  match iter_one s app asset lid rw with IterGo s' | IterStop s' => NfNonneg (cs s') | IterPanic => True end.
+Proof.
+  intros Hn. unfold iter_one. destruct (find_locker (lockers s) lid) as [ld|]; [|exact I].
+  destruct (rw =? -2); [exact I|]. destruct (rw <? 0); [exact Hn|].
+  destruct (tracker_after s lid app rw >=? P18); [|exact Hn].
+  cbn [cs set_trk]. destruct (decrease_net_fee (cs s) app (l_asset ld) _) as [c2| |] eqn:D; [|exact Hn|exact I].
+  pose proof (decrease_net_fee_nonneg _ _ _ _ _ D Hn) as Hn2.
+  cbn [cs set_cs set_trk].
+  match goal with |- context [if ?b then _ else _] => destruct b end.
+  - destruct (csend c2 A_COLLECTOR A_LOCKER asset _) as [c3| |] eqn:S; [|exact Hn2|exact I].
+    rewrite cs_upd_amount. cbn [cs set_lockers set_cs]. destruct (csend_spec _ _ _ _ _ _ S) as (_ & Hnf & _). exact (nfnonneg_same _ _ Hn2 Hnf).
+  - rewrite cs_upd_amount. exact Hn2.
+Qed.
+
+Lemma iter_rewards_nonneg ids : forall s app asset rws s',
+  NfNonneg (cs s) -> iter_rewards s app asset ids rws = Ok s' -> NfNonneg (cs s').
+Proof.
+  induction ids as [|lid ids IH]; intros s app asset rws s' Hn; cbn [iter_rewards].
+  - intros H; injection H as <-. exact Hn.
+  - destruct rws as [|rw rws]; [intros H; injection H as <-; exact Hn|].
+    pose proof (iter_one_nonneg s app asset lid rw Hn) as H1.
+    destruct (iter_one s app asset lid rw) as [s1|s1|]; [apply IH; exact H1|intros H; injection H as <-; exact H1|discriminate].
+Qed.
+
+Lemma update_lookup_mid s app asset lsr sthr dthr lot dlot rws s' :
+  update_lookup s app asset lsr sthr dthr lot dlot rws = Ok s' ->
+  exists s1, nf (cs s') = nf (cs s1) /\ bnk (cs s') = bnk (cs s1) /\ lockers s' = lockers s1 /\ lks s' = lks s1 /\
+             (s1 = s \/ iter_rewards s app asset (match lks s (app, asset) with Some lk => lk_ids lk | None => [] end) rws = Ok s1).
+Proof.
+  unfold update_lookup. destruct (clk (cs s) (app, asset)) as [cl|].
+  2:{ intros H; injection H as <-. exists s. repeat split; auto. }
+  intros H. apply obind_ok in H. destruct H as (s1 & H1 & H2). injection H2 as <-. exists s1. repeat split; auto.
+  destruct (rwl s (cl_app cl, cl_asset cl)); [|injection H1 as <-; auto].
+  destruct (lsr =? 0); [auto|]. destruct (cl_lsr cl =? 0); [injection H1 as <-; auto|].
+  destruct ((cl_lsr cl >? 0) && (lsr >? 0)); [auto|injection H1 as <-; auto].
+Qed.
+
+Lemma update_lookup_nonneg s app asset lsr sthr dthr lot dlot rws s' :
+  NfNonneg (cs s) -> update_lookup s app asset lsr sthr dthr lot dlot rws = Ok s' -> NfNonneg (cs s').
+Proof.
+  intros Hn H. destruct (update_lookup_mid _ _ _ _ _ _ _ _ _ _ H) as (s1 & E1 & _ & _ & _ & [->|Hit]).
+  - exact (nfnonneg_same _ _ Hn E1).
+  - exact (nfnonneg_same _ _ (iter_rewards_nonneg _ _ _ _ _ _ Hn Hit) E1).
+Qed.
+
+(* one locker of the lookup, in a state whose books are backed: the reward is both booked and paid *)
+Lemma iter_one_eff s app asset lid rw :
+  LInv s -> NfNonneg (cs s) -> Backed (cs s) ->
+  (forall x, find_locker (lockers s) lid = Some x -> l_app x = app /\ l_asset x = asset) ->
+  match iter_one s app asset lid rw with
+  | IterGo s' | IterStop s' =>
+      exists r, 0 <= r /\ SEff s s' (app, asset) (- r) asset (- r) /\
+                fsum (mt app asset) (lockers s') = fsum (mt app asset) (lockers s) + r
+  | IterPanic => True
+  end.
+Proof.
+  intros HI Hn Hb Hm. unfold iter_one.
+  destruct (find_locker (lockers s) lid) as [ld|] eqn:F; [|exact I].
+  destruct (Hm ld eq_refl) as (Ha & Hd).
+  destruct (rw =? -2); [exact I|].
+  assert (Hzero : forall s', cs s' = cs s -> lockers s' = lockers s ->
+            exists r, 0 <= r /\ SEff s s' (app, asset) (- r) asset (- r) /\ fsum (mt app asset) (lockers s') = fsum (mt app asset) (lockers s) + r).
+  { intros s' E1 E2. exists 0. split; [lia|]. split; [unfold SEff; rewrite E1; exact (ceff_refl _ _ _)|rewrite E2; lia]. }
+  destruct (rw <? 0); [apply Hzero; reflexivity|].
+  destruct (tracker_after s lid app rw >=? P18) eqn:ET; [|apply Hzero; reflexivity].
+  set (r := dtrunc_int (tracker_after s lid app rw)).
+  assert (Hr : 1 <= r) by (apply trunc_pos; lia).
+  cbn [cs set_trk].
+  destruct (decrease_net_fee (cs s) app (l_asset ld) r) as [c2| |] eqn:D; [|apply Hzero; reflexivity|exact I].
+  assert ((r >? 0) = true) as -> by lia.
+  cbn [cs set_cs set_trk].
+  destruct (decrease_net_fee_spec _ _ _ _ _ D) as (Hle & _ & Hnf2 & Hb2 & _).
+  destruct (csend c2 A_COLLECTOR A_LOCKER asset r) as [c3| |] eqn:S; [| |exact I].
+  2:{ (* impossible: the collector holds at least the book entry *)
+      exfalso. revert S. unfold csend, bsend. assert ((r <? 0) = false) as -> by lia. assert ((r =? 0) = false) as -> by lia.
+      change (A_COLLECTOR =? A_EXT) with false. cbn [orb]. rewrite Hb2.
+      assert (Hc : r <= bnk (cs s) (A_COLLECTOR, asset)).
+      { pose proof (Hb asset [app] ltac:(constructor; [intros []|constructor])) as H1. unfold nf_total in H1. cbn [sum_over] in H1.
+        unfold cbal in H1. rewrite Hd in Hle. lia. }
+      assert ((r <=? bnk (cs s) (A_COLLECTOR, asset)) = true) as -> by lia. discriminate. }
+  exists r. split; [lia|]. split.
+  - unfold SEff. rewrite cs_upd_amount. cbn [cs set_lockers set_cs]. rewrite Hd in D.
+    eapply ceff_eq; [exact (ceff_trans _ _ _ _ _ _ _ _ _ (ceff_decrease _ _ _ _ _ asset D) (ceff_csend _ _ _ _ _ _ (app, asset) S))|lia|cbn; lia].
+  - assert (Hl : lockers (upd_amount (set_lockers (set_cs (set_cs (set_trk s (kupd (trk s) (lid, app) (Some (tracker_after s lid app rw - dec_of_int r)))) c2) c3)
+                   (put_locker (lockers s) (with_net ld (l_net ld + r) (l_ret ld + r)))) app asset r true)
+                = put_locker (lockers s) (with_net ld (l_net ld + r) (l_ret ld + r))).
+    { unfold upd_amount. cbn [lks set_lockers set_cs set_trk]. destruct (lks s (app, asset)); reflexivity. }
+    cbn [lockers set_cs set_trk] in Hl |- *. rewrite Hl.
+    destruct (find_some _ _ _ F) as (_ & Hid).
+    assert (Hfv : find_locker (lockers s) (l_id (with_net ld (l_net ld + r) (l_ret ld + r))) = Some ld) by (cbn [l_id with_net]; rewrite Hid; exact F).
+    destruct (put_found _ _ _ Hfv) as (_ & Hsum & _). rewrite Hsum, mt_with_net.
+    assert (mt app asset ld = true) as -> by (apply mt_true; auto). cbn [l_net with_net]. lia.
+Qed.
+
+Definition CInv (s : state) : Prop := LInv s /\ NfNonneg (cs s) /\ Backed (cs s).
+
+Lemma iter_rewards_eff ids : forall s app asset rws s',
+  CInv s -> ids_ok s app asset ids -> iter_rewards s app asset ids rws = Ok s' ->
+  CInv s' /\ exists r, 0 <= r /\ SEff s s' (app, asset) (- r) asset (- r) /\
+                       fsum (mt app asset) (lockers s') = fsum (mt app asset) (lockers s) + r.
+Proof.
+  induction ids as [|lid ids IH]; intros s app asset rws s' HC Hok; cbn [iter_rewards].
+  - intros H; injection H as <-. split; [exact HC|]. exists 0. split; [lia|]. split; [exact (ceff_refl _ _ _)|lia].
+  - destruct rws as [|rw rws].
+    { intros H; injection H as <-. split; [exact HC|]. exists 0. split; [lia|]. split; [exact (ceff_refl _ _ _)|lia]. }
+    destruct HC as (HI & Hn & Hb).
+    assert (Hm : forall x, find_locker (lockers s) lid = Some x -> l_app x = app /\ l_asset x = asset)
+      by (intros x Hx; exact (Hok lid x (or_introl eq_refl) Hx)).
+    pose proof (iter_one_linv s app asset lid rw HI Hm) as H1.
+    pose proof (iter_one_eff s app asset lid rw HI Hn Hb Hm) as H2.
+    destruct (iter_one s app asset lid rw) as [s1|s1|]; [| |discriminate].
+    + destruct H1 as (HI1 & Hpres). destruct H2 as (r1 & Hr1 & E1 & F1).
+      assert (HC1 : CInv s1).
+      { split; [exact HI1|]. split; [exact (proj2 (proj2 E1) Hn)|]. exact (ceff_backed _ _ _ _ _ _ Hn Hb E1 ltac:(lia)). }
+      intros Hit. destruct (IH s1 app asset rws s' HC1) as (HC' & r2 & Hr2 & E2 & F2); [|exact Hit|].
+      { intros id x Hin Hf. destruct (Hpres id x Hf) as (x0 & Hf0 & -> & ->). apply (Hok id x0); [right; exact Hin|exact Hf0]. }
+      split; [exact HC'|]. exists (r1 + r2). split; [lia|]. split; [|lia].
+      eapply ceff_eq; [exact (ceff_trans _ _ _ _ _ _ _ _ _ E1 E2)|lia|lia].
+    + destruct H1 as (HI1 & _). destruct H2 as (r1 & Hr1 & E1 & F1). intros H; injection H as <-.
+      split; [|exists r1; auto].
+      split; [exact HI1|]. split; [exact (proj2 (proj2 E1) Hn)|]. exact (ceff_backed _ _ _ _ _ _ Hn Hb E1 ltac:(lia)).
+Qed.
+
+(* the savings-rate change in a backed state: net fees of (app, asset) fall by exactly what its
+   lockers are credited, and exactly that many coins leave the collector *)
+Lemma update_lookup_eff s app asset lsr sthr dthr lot dlot rws s' :
+  CInv s -> update_lookup s app asset lsr sthr dthr lot dlot rws = Ok s' ->
+  exists r, 0 <= r /\ SEff s s' (app, asset) (- r) asset (- r) /\
+            net_sum (lockers_of s' app asset) = net_sum (lockers_of s app asset) + r.
+Proof.
+  intros HC H. destruct (update_lookup_mid _ _ _ _ _ _ _ _ _ _ H) as (s1 & E1 & E2 & E3 & _ & Hcase).
+  assert (Hre : forall r, SEff s s1 (app, asset) (- r) asset (- r) -> SEff s s' (app, asset) (- r) asset (- r)).
+  { intros r E. eapply ceff_eq; [exact (ceff_trans _ _ _ _ _ _ _ _ _ E (ceff_same _ _ (app, asset) asset E1 E2))|lia|lia]. }
+  rewrite !lockers_of_fsum, E3. destruct Hcase as [->|Hit].
+  - exists 0. split; [lia|]. split; [apply Hre; exact (ceff_refl _ _ _)|lia].
+  - assert (Hok : ids_ok s app asset (match lks s (app, asset) with Some lk => lk_ids lk | None => [] end)).
+    { destruct HC as (HI & _). intros id x Hin Hf. destruct (lks s (app, asset)) as [lk|] eqn:K; [|destruct Hin].
+      exact (li_ids s HI _ _ _ _ _ K Hin Hf). }
+    destruct (iter_rewards_eff _ _ _ _ _ _ HC Hok Hit) as (_ & r & Hr & E & F).
+    exists r. split; [exact Hr|]. split; [apply Hre; exact E|exact F].
+Qed.
+
+(* ---- every op keeps "net fees never negative" ---- *)
+Lemma step_nonneg s o s' : valid_op o = true -> NfNonneg (cs s) -> step s o = Ok s' -> NfNonneg (cs s').
+Proof.
+  intros Hv Hn H. destruct (is_upd_lookup o) eqn:U.
+  - destruct o; try discriminate U. exact (update_lookup_nonneg _ _ _ _ _ _ _ _ _ _ Hn H).
+  - exact (proj2 (proj2 (step_effok s o s' Hv U H)) Hn).
+Qed.
+
+(* ---- outside the known-finding classes book and coins move together ---- *)
+Lemma csend_amount_nonneg c from to d amt c' : csend c from to d amt = Ok c' -> 0 <= amt.
+Proof. intros H. exact (proj1 (csend_spec _ _ _ _ _ _ H)). Qed.
+
+Definition Moves (s s' : state) (o : op) (app asset dl db : Z) : Prop :=
+  (forall k, nf_delta_of s s' o k = at_key app asset k dl) /\
+  (forall d, (if d =? fst (coin_delta_of s s' o) then snd (coin_delta_of s s' o) else 0) = (if d =? asset then db else 0)) /\
+  dl <= db /\ (book_only o = false -> dl = db) /\ (dl <> 0 -> op_key s o = Some (app, asset)).
+
+Lemma at_key_zero a1 d1 a2 d2 k : at_key a1 d1 k 0 = at_key a2 d2 k 0.
+Proof. unfold at_key. destruct (keq _ _), (keq _ _); reflexivity. Qed.
+
+Lemma step_moves s o s' :
+  valid_op o = true -> kf_C13_any o = false -> is_upd_lookup o = false -> step s o = Ok s' ->
+  exists app asset dl db, Moves s s' o app asset dl db.
+Proof.
+  intros Hv Hk Hu H. unfold Moves.
+  destruct o; try discriminate Hu; cbn [nf_delta_of nf_delta_spec coin_delta_of fst snd book_only op_key].
+  all: try (exists 0, 0, 0, 0; repeat split; try lia; try reflexivity; intros k; unfold at_key; destruct (keq _ _); reflexivity).
+  - exists app, asset, (- credited s app asset lid rw), (- credited s app asset lid rw). repeat split; try lia; reflexivity.
+  - exists app, asset, (- credited s app asset lid rw), (- credited s app asset lid rw). repeat split; try lia; reflexivity.
+  - exists app, asset, (- credited s app asset lid rw), (- credited s app asset lid rw). repeat split; try lia; reflexivity.
+  - destruct (find_locker (lockers s) lid) as [ld|].
+    + exists app, (l_asset ld), (- credited s app (l_asset ld) lid rw), (- credited s app (l_asset ld) lid rw). repeat split; try lia; reflexivity.
+    + exists 0, 0, 0, 0. repeat split; try lia; try reflexivity. intros k; unfold at_key; destruct (keq _ _); reflexivity.
+  - exists app, asset, amt, amt. repeat split; try lia; reflexivity.
+  - exists app, asset, (- amt), (- amt). repeat split; try lia; reflexivity.
+  - exists app, asset, (- amt), 0. cbn in Hv. repeat split; try lia; try reflexivity; try discriminate.
+  - cbn in Hv. assert (denom = asset) by lia. subst denom.
+    exists app, asset, (- amt), (- amt). repeat split; try lia; reflexivity.
+  - exists app, asset, (if started s s' app asset then - lot_of s app asset else 0), (if started s s' app asset then - lot_of s app asset else 0).
+    repeat split; try lia; reflexivity.
+  - exists app, asset, (if bidder && negb esm then 0 else lot), (if bidder && negb esm then 0 else lot).
+    repeat split; try lia; try reflexivity. intros k. destruct (bidder && negb esm); [|reflexivity]. unfold at_key. destruct (keq _ _); reflexivity.
+  - exists app, asset, (if esm then 0 else if bids then amt else 0), (if esm then 0 else if bids then amt else 0).
+    repeat split; try lia; try reflexivity. intros k. destruct esm; [unfold at_key; destruct (keq _ _); reflexivity|].
+    destruct bids; [reflexivity|unfold at_key; destruct (keq _ _); reflexivity].
+  - exists app, asset, amt, amt. repeat split; try lia; reflexivity.
+  - exists app, asset, (if started s s' app asset && af_surplus (flags_of s app asset) then - lot_of s app asset else 0),
+      (if started s s' app asset && af_surplus (flags_of s app asset) then - lot_of s app asset else 0).
+    repeat split; try lia; reflexivity.
+  - (* v2 surplus close outside the class: lot = 0 *)
+    cbn [step] in H. unfold v2_surplus_close in H. apply obind_ok in H. destruct H as (s1 & H1 & _).
+    apply lift_ok in H1. destruct H1 as (c & H1 & _). pose proof (csend_amount_nonneg _ _ _ _ _ _ H1) as Hl.
+    unfold kf_C13_any in Hk. cbn in Hk. assert (lot = 0) by lia. subst lot.
+    exists app, asset, 0, 0. repeat split; try lia; reflexivity.
+  - (* v2 debt close outside the class: DebtToken is the collector asset and the amounts agree *)
+    unfold kf_C13_any in Hk. cbn in Hk. assert (debt_denom = asset /\ coll_amt = debt_amt) as (-> & ->) by lia.
+    exists app, asset, debt_amt, debt_amt. repeat split; try lia; reflexivity.
+  - (* v2 penalty outside the class: same asset, or nothing paid *)
+    unfold kf_C13_any in Hk. cbn in Hk.
+    destruct (Z.eqb_spec coll_asset debt_asset) as [->|Hne].
+    + exists app, debt_asset, amt, amt. repeat split; try lia; reflexivity.
+    + cbn [step] in H. unfold v2_penalty in H. apply obind_ok in H. destruct H as (s1 & _ & H2).
+      apply lift_ok in H2. destruct H2 as (c & H2 & _). destruct (set_net_fee_spec _ _ _ _ _ H2) as (Hf & _).
+      assert (amt = 0) by lia. subst amt.
+      exists app, debt_asset, 0, 0. repeat split; try lia; try reflexivity. intros k. apply at_key_zero.
+Qed.
+
+Lemma step_backed s o s' :
+  valid_op o = true -> kf_C13_any o = false -> CInv s -> step s o = Ok s' -> Backed (cs s').
+Proof.
+  intros Hv Hk (HI & Hn & Hb) H. destruct (is_upd_lookup o) eqn:U.
+  - destruct o; try discriminate U. cbn [step] in H.
+    destruct (update_lookup_eff _ _ _ _ _ _ _ _ _ _ (conj HI (conj Hn Hb)) H) as (r & Hr & E & _).
+    exact (ceff_backed _ _ _ _ _ _ Hn Hb E ltac:(lia)).
+  - destruct (step_effok s o s' Hv U H) as (A1 & A2 & A3).
+    destruct (step_moves s o s' Hv Hk U H) as (app & asset & dl & db & M1 & M2 & M3 & _).
+    apply (ceff_backed (cs s) (cs s') app asset dl db Hn Hb); [|exact M3].
+    repeat split; [|intros d; rewrite A2, M2; reflexivity|exact A3].
+    intros a d. rewrite A1, M1. reflexivity.
+Qed.
+
+Lemma step_cinv s o s' :
+  valid_op o = true -> kf_C13_any o = false -> CInv s -> step s o = Ok s' -> CInv s'.
+Proof.
+  intros Hv Hk HC H. split; [exact (step_linv _ _ _ (proj1 HC) Hv H)|].
+  split; [exact (step_nonneg _ _ _ Hv (proj1 (proj2 HC)) H)|exact (step_backed _ _ _ Hv Hk HC H)].
+Qed.
+
+(* ---- histories ---- *)
+Definition kf_free (o : op) : bool := negb (kf_C13_any o).
+
+Lemma run_cinv ops : forall s, CInv s -> forallb valid_op ops = true -> forallb kf_free ops = true -> CInv (run s ops).
+Proof.
+  induction ops as [|o ops IH]; intros s HC Hv Hk; [exact HC|].
+  cbn in Hv, Hk. apply andb_true_iff in Hv. destruct Hv as (Hv1 & Hv2). apply andb_true_iff in Hk. destruct Hk as (Hk1 & Hk2).
+  unfold run. cbn [fold_left]. apply IH; [|exact Hv2|exact Hk2].
+  unfold apply_step. destruct (step s o) as [s'| |] eqn:E; [|exact HC|exact HC].
+  apply (step_cinv s o s' Hv1); [unfold kf_free in Hk1; destruct (kf_C13_any o); [discriminate|reflexivity]|exact HC|exact E].
+Qed.
+
+Lemma run_nonneg ops : forall s, NfNonneg (cs s) -> forallb valid_op ops = true -> NfNonneg (cs (run s ops)).
+Proof.
+  induction ops as [|o ops IH]; intros s Hn Hv; [exact Hn|].
+  cbn in Hv. apply andb_true_iff in Hv. destruct Hv as (Hv1 & Hv2).
+  unfold run. cbn [fold_left]. apply IH; [|exact Hv2].
+  unfold apply_step. destruct (step s o) as [s'| |] eqn:E; [|exact Hn|exact Hn]. exact (step_nonneg _ _ _ Hv1 Hn E).
+Qed.
+
+Lemma genesis_nf assets apps funds : nf (cs (genesis assets apps funds)) = fun _ => None.
+Proof.
+  unfold genesis. assert (H : nf (cs (init_state assets apps)) = fun _ => None) by reflexivity. revert H. generalize (init_state assets apps).
+  induction funds as [|[[u d] amt] r IH]; intros s H; [exact H|]. cbn [fold_left]. apply IH. exact H.
+Qed.
+
+Lemma genesis_cbal assets apps funds d : forallb valid_fund funds = true -> cbal (cs (genesis assets apps funds)) d = 0.
+Proof.
+  unfold genesis. assert (H : cbal (cs (init_state assets apps)) d = 0) by reflexivity. revert H. generalize (init_state assets apps).
+  induction funds as [|[[u d'] amt] r IH]; intros s H Hv; [exact H|]. cbn [fold_left].
+  cbn in Hv. apply andb_true_iff in Hv. destruct Hv as (Hv1 & Hv2). apply IH; [|exact Hv2].
+  unfold fund_user, cbal. cbn [cs set_cs bnk set_bnk]. unfold kupd, keq. cbn [fst snd].
+  assert (Hu : 0 <= u) by lia. rewrite (Z.eqb_sym A_COLLECTOR (user u)), (user_not_collector u Hu). cbn [andb]. exact H.
+Qed.
+
+Lemma genesis_cinv assets apps funds : forallb valid_fund funds = true -> CInv (genesis assets apps funds).
+Proof.
+  intros Hv. split; [exact (genesis_linv assets apps funds Hv)|]. split.
+  - intros k x. rewrite genesis_nf. discriminate.
+  - intros d l Hnd. rewrite (genesis_cbal assets apps funds d Hv). unfold nf_total.
+    assert (forall a, nf_val (cs (genesis assets apps funds)) a d = 0) as Hz by (intros a; unfold nf_val; rewrite genesis_nf; reflexivity).
+    clear Hnd. induction l as [|a r IH]; cbn; [lia|]. rewrite Hz. lia.
+Qed.
+
+(* ---- the executable predicates ---- *)
+Lemma nonneg_holds la ld s : NfNonneg (cs s) -> holds_C13_nonneg la ld s = true.
+Proof.
+  intros Hn. unfold holds_C13_nonneg. apply forallb_forall. intros d _. apply forallb_forall. intros a _.
+  pose proof (nf_val_nonneg (cs s) a d Hn). lia.
+Qed.
+
+Lemma backed_holds la ld s : Backed (cs s) -> NoDup la -> holds_C13_backed la ld s = true.
+Proof.
+  intros Hb Hnd. unfold holds_C13_backed. apply forallb_forall. intros d _. pose proof (Hb d la Hnd) as H. unfold cbal in H. lia.
+Qed.
+
+Lemma delta_holds keys s o s' :
+  valid_op o = true -> is_upd_lookup o = false -> step s o = Ok s' -> holds_C13_delta keys s o s' = true.
+Proof.
+  intros Hv U H. destruct (step_effok s o s' Hv U H) as (A1 & _).
+  unfold holds_C13_delta. apply forallb_forall. intros [a d] _. cbn [fst snd]. specialize (A1 a d).
+  destruct o; try discriminate U; cbn [nf_delta_of] in A1; lia.
+Qed.
+
+Lemma delta_holds_upd keys s app asset lsr sthr dthr lot dlot rws s' :
+  CInv s -> step s (UpdLookup app asset lsr sthr dthr lot dlot rws) = Ok s' ->
+  holds_C13_delta keys s (UpdLookup app asset lsr sthr dthr lot dlot rws) s' = true.
+Proof.
+  intros HC H. cbn [step] in H. destruct (update_lookup_eff _ _ _ _ _ _ _ _ _ _ HC H) as (r & Hr & (A1 & _) & F).
+  unfold holds_C13_delta. apply forallb_forall. intros [a d] _. cbn [fst snd]. rewrite A1, F. unfold at_key.
+  destruct (keq (a, d) (app, asset)); lia.
+Qed.
+
+Lemma nf_total_moves c c' la d app asset dl :
+  NoDup la -> (forall a d, nf_val c' a d = nf_val c a d + (if keq (a, d) (app, asset) then dl else 0)) ->
+  nf_total c' la d = nf_total c la d + (if (d =? asset) && existsb (Z.eqb app) la then dl else 0).
+Proof.
+  intros Hnd Hval. unfold nf_total.
+  rewrite (sum_over_bump la (fun a => nf_val c a d) (fun a => nf_val c' a d) app (if d =? asset then dl else 0) Hnd).
+  - destruct (d =? asset), (existsb (Z.eqb app) la); cbn [andb]; lia.
+  - intros a. rewrite Hval, keq_pair. destruct (a =? app), (d =? asset); cbn [andb]; lia.
+Qed.
+
+Definition key_in (la : list Z) (s : state) (o : op) : bool :=
+  match op_key s o with Some (a, _) => existsb (Z.eqb a) la | None => true end.
+
+Lemma flow_holds la ld s o s' :
+  valid_op o = true -> kf_C13_any o = false -> CInv s -> NoDup la -> key_in la s o = true ->
+  step s o = Ok s' -> holds_C13_flow la ld s o s' = true.
+Proof.
+  intros Hv Hk HC Hnd Hin H. unfold holds_C13_flow. apply forallb_forall. intros d _.
+  destruct (is_upd_lookup o) eqn:U.
+  - destruct o; try discriminate U. cbn [step] in H.
+    destruct (update_lookup_eff _ _ _ _ _ _ _ _ _ _ HC H) as (r & Hr & (A1 & A2 & _) & _).
+    fold (cbal (cs s') d). fold (cbal (cs s) d). rewrite A2, (nf_total_moves _ _ la d app asset (- r) Hnd A1).
+    unfold key_in in Hin. cbn [op_key] in Hin. rewrite Hin, andb_true_r. destruct (d =? asset); lia.
+  - destruct (step_effok s o s' Hv U H) as (A1 & A2 & _).
+    destruct (step_moves s o s' Hv Hk U H) as (app & asset & dl & db & M1 & M2 & M3 & M4 & M5).
+    assert (Hval : forall a d, nf_val (cs s') a d = nf_val (cs s) a d + (if keq (a, d) (app, asset) then dl else 0))
+      by (intros a d'; rewrite A1, M1; reflexivity).
+    assert (Hdn : nf_total (cs s') la d - nf_total (cs s) la d = if d =? asset then dl else 0).
+    { rewrite (nf_total_moves _ _ la d app asset dl Hnd Hval).
+      destruct (Z.eq_dec dl 0) as [->|Hne]; [destruct ((d =? asset) && _), (d =? asset); lia|].
+      unfold key_in in Hin. rewrite (M5 Hne) in Hin. rewrite Hin, andb_true_r. lia. }
+    assert (Hdb : bnk (cs s') (A_COLLECTOR, d) - bnk (cs s) (A_COLLECTOR, d) = if d =? asset then db else 0).
+    { fold (cbal (cs s') d). fold (cbal (cs s) d). rewrite A2, M2. lia. }
+    rewrite Hdn, Hdb.
+    destruct o; try discriminate U; try (cbn [book_only] in M4; rewrite (M4 eq_refl); destruct (d =? asset); lia).
+    destruct (d =? asset); lia.
+Qed.
